@@ -185,6 +185,8 @@ def run_async_history(h: dict) -> dict:
                 await lp.sock_connect(s, addr)
                 await lp.sock_sendall(s, b"ping\n" if not h["udp"] else b"ping")
                 r = await asyncio.wait_for(lp.sock_recv(s, 100), 5)
+                if not r:
+                    return "failed:closed-by-server"  # the server was shut down / closed while we were connected
                 return "ok" if r.strip() == b"ping" else f"bad:{r!r}"
             except (OSError, asyncio.TimeoutError) as exc:
                 return f"failed:{type(exc).__name__}"
@@ -317,7 +319,8 @@ def check_history(events: list, ctx=None, threads: bool = False) -> str | None:
             if not overl and c not in ups:
                 return f"serve_forever (event {c}) overlapping no other lifecycle call returned without ever serving"
         # (c) called after a server_close returned -> must be ServerClosedError
-        if any(x in rets and rets[x]["i"] < c and rets[x]["result"] == "returned" for x in closes) and r["result"] not in ("ServerClosedError", "ServerAlreadyRunning"):
+        interrupted = c not in ups and any(interval(x)[0] < b and interval(x)[1] > a for x in shutdowns + closes)  # stopped while starting
+        if any(x in rets and rets[x]["i"] < c and rets[x]["result"] == "returned" for x in closes) and r["result"] not in ("ServerClosedError", "ServerAlreadyRunning") and not (r["result"] == "returned" and interrupted):
             return f"serve_forever (event {c}) called after server_close had returned ended '{r['result']}' instead of ServerClosedError"
     for s in shutdowns:
         r = rets[s]
@@ -421,6 +424,8 @@ def run_thread_history(h: dict, seed: int) -> dict:
             s.connect((addrs[0].host, addrs[0].port))
             s.sendall(b"ping\n" if not h["udp"] else b"ping")
             r = s.recv(100)
+            if not r:
+                return "failed:closed-by-server"
             return "ok" if r.strip() == b"ping" else f"bad:{r!r}"
         except OSError as exc:
             return f"failed:{type(exc).__name__}"
